@@ -1447,22 +1447,70 @@ def _holds_via_closure(facts, fact, pred):
     cb = facts.bodies.get(clo[1][len('closure:'):])
     if cb is None or len(cb.blocks) > 80 or cb.locals[0]['ty'] != 'bool':
         return False
-    return _returns_only_via(facts, cb, {}, True, pred)
+    return _returns_only_via(facts, cb, {1: clo}, True, pred)
+
+
+def _closure_call(facts, node):
+    """node = Fn::call / FnMut::call_mut / FnOnce::call_once applied to a closure value that is visible as an aggregate
+    (a named closure `let ok = |x| ..;` used inside another closure's predicate): (closure body, argmap) or None"""
+    n = strip(node)
+    if n[0] == 'call' and len(n[2]) == 2 and '{closure' in n[1].rsplit('::', 1)[-1] and n[1] in facts.bodies:
+        # the call was resolved to the closure body by the compiler: (env, (args,))
+        cb = facts.bodies[n[1]]
+        args = strip(n[2][1])
+        if len(cb.blocks) > 80 or cb.locals[0]['ty'] != 'bool' or args[0] != 'agg' or args[1] != 'tuple':
+            return None
+        argmap = {1: n[2][0]}
+        for i, a in enumerate(args[2]):
+            argmap[i + 2] = a
+        return cb, argmap
+    if n[0] != 'call' or n[1].rsplit('::', 1)[-1] not in ('call', 'call_mut', 'call_once') or len(n[2]) != 2:
+        return None
+    c = strip(n[2][0])
+    for _ in range(4):
+        if c[0] in ('ref', 'deref') and len(c) >= 2:
+            c = strip(c[1])
+    if c[0] != 'agg' or not str(c[1]).startswith('closure:'):
+        return None
+    cb = facts.bodies.get(c[1][len('closure:'):])
+    if cb is None or len(cb.blocks) > 80 or cb.locals[0]['ty'] != 'bool':
+        return None
+    args = strip(n[2][1])
+    if args[0] != 'agg' or args[1] != 'tuple':
+        return None
+    argmap = {1: c}
+    for i, a in enumerate(args[2]):
+        argmap[i + 2] = a
+    return cb, argmap
+
+
+_NEST = [0]
 
 
 def _returns_only_via(facts, cb, argmap, want, pred):
     from .wirelib import subst
     # blocks in which the return place receives a value that can equal `want`
     sites = []
+    discharged = []
     for bi, bl in enumerate(cb.blocks):
         if bl['cl']:
             continue
-        for s in bl['s']:
+        for si_, s in enumerate(bl['s']):
             if s[0] == 'a' and s[1] == [0, []]:
                 rv = s[2]
                 if rv[0] == 'use' and rv[1][0] == 'k' and isinstance(rv[1][2], bool):
                     if rv[1][2] == want:
                         sites.append(bi)
+                elif rv[0] == 'un' and rv[1] == 'Not':
+                    # `a && !g(x)`: the negated last conjunct is returned directly
+                    try:
+                        nd = facts.origin.operand(cb, rv[2], bi, si_)
+                    except Exception:
+                        nd = None
+                    if nd is not None and pred(('bool', subst(nd, argmap), not want)):
+                        discharged.append(bi)
+                        continue
+                    sites.append(bi)
                 else:
                     sites.append(bi)
         if bl['t'][0] == 'call' and bl['t'][3] == [0, []]:
@@ -1470,7 +1518,7 @@ def _returns_only_via(facts, cb, argmap, want, pred):
             # its own value equals the result
             sites.append(('callret', bi))
     if not sites:
-        return False
+        return bool(discharged)
 
     def sub_fact(f):
         if f[0] == 'rel':
@@ -1500,6 +1548,15 @@ def _returns_only_via(facts, cb, argmap, want, pred):
             node = facts.origin.call_node(cb, t, bi, 0, None) if hasattr(facts.origin, 'call_node') else None
             if node is not None and pred(('bool', subst(node, argmap), want)):
                 continue
+            inner = _closure_call(facts, subst(node, argmap)) if node is not None and _NEST[0] < 2 else None
+            if inner is not None:
+                _NEST[0] += 1
+                try:
+                    okn = _returns_only_via(facts, inner[0], inner[1], want, pred)
+                finally:
+                    _NEST[0] -= 1
+                if okn:
+                    continue
             return False
         if st in seen:
             return False
